@@ -151,45 +151,24 @@ Definition linv (o0 t0 : fstate) (w : N) (ph : phase) (o t : fstate) : Prop :=
   | PDone => t = Absent /\ o = Fresh w false
   end.
 
-Lemma linv_step : forall tk so st o0 t0 w ph l ph' o t,
+Lemma linv_step : forall so st o0 t0 w ph l ph' o t,
     (st = false -> t0 = Absent) ->
-    step_file tk so st ph l = Some ph' ->
+    step_file so st ph l = Some ph' ->
     linv o0 t0 w ph o t ->
     linv o0 t0 (w + (if is_write l then 1 else 0))%N ph'
          (fst (apply_l l o t)) (snd (apply_l l o t)).
 Proof.
-  intros tk so st o0 t0 w ph l ph' o t Hst Hs Hi.
+  intros so st o0 t0 w ph l ph' o t Hst Hs Hi.
   destruct ph, l; simpl in Hs; try discriminate;
     repeat match type of Hs with
            | (if ?b then _ else _) = _ =>
                let E := fresh "E" in destruct b eqn:E; try discriminate
            end;
     inversion Hs; subst ph'; clear Hs; simpl in *;
-    rewrite ?N.add_0_r.
-  - (* P0 UnlinkOut *) destruct Hi as (? & ? & ?); subst; auto.
-  - (* P0 UnlinkTmp *) destruct Hi as (? & ? & ?); subst; auto.
-  - (* P0 CreateTrunc *) destruct Hi as (? & ? & ?); subst; auto.
-  - (* P0 OpenAppend *)
-    destruct Hi as (? & ? & ?); subst.
-    apply andb_true_iff in E as (_ & E).
-    apply andb_true_iff in E as (_ & E).
-    apply negb_true_iff in E. rewrite (Hst E). auto.
-  - (* P1 UnlinkTmp *) destruct Hi as (? & ? & ?); subst; auto.
-  - (* P1 CreateTrunc *) destruct Hi as (? & ? & ?); subst; auto.
-  - (* P1 OpenAppend *)
-    destruct Hi as (? & ? & ?); subst.
-    apply andb_true_iff in E as (_ & E).
-    apply negb_true_iff in E. rewrite (Hst E). auto.
-  - (* P2 CreateTrunc *) destruct Hi as (? & ? & ?); subst; auto.
-  - (* P2 OpenAppend *) destruct Hi as (? & ? & ?); subst; auto.
-  - (* PW Write *) destruct Hi as (? & ?); subst; auto.
-  - (* PW Close *) destruct Hi as (? & ?); subst; auto.
-  - (* PC OpenAppend *) destruct Hi as (? & ?); subst; auto.
-  - (* PC Close *) destruct Hi as (? & ?); subst; auto.
-  - (* PC Rename *) destruct Hi as (? & ?); subst; auto.
-  - (* PC OpenReadTmp *) destruct Hi as (? & ?); subst; auto.
-  - (* PDone OpenReadOut *) destruct Hi as (? & ?); subst; auto.
-  - (* PDone CloseOut *) destruct Hi as (? & ?); subst; auto.
+    rewrite ?N.add_0_r;
+    try (apply negb_true_iff in E; specialize (Hst E));
+    try (destruct Hi as (? & ? & ?)); try (destruct Hi as (? & ?));
+    subst; auto.
 Qed.
 
 Definition inv (s0 : fs) (pre : list op) (s : fs) (ps : pstate) : Prop :=
@@ -222,7 +201,7 @@ Proof.
   intros c s0 pre s ps o ps' Hinit Hinv Hs.
   unfold step in Hs.
   destruct (classify o) as [i l| |] eqn:Hc; try discriminate.
-  - destruct (step_file (c_task c) (c_so c i) (c_st c i) (ps i) l)
+  - destruct (step_file (c_so c i) (c_st c i) (ps i) l)
       as [ph|] eqn:Hsf; try discriminate.
     inversion Hs; subst ps'; clear Hs.
     destruct Hinv as (Hf & Hi & Ho).
@@ -269,7 +248,7 @@ Lemma done_step : forall c ps o ps' i,
 Proof.
   intros c ps o ps' i Hs Hd. unfold step in Hs.
   destruct (classify o) as [k l| |] eqn:Hc; try discriminate.
-  - destruct (step_file (c_task c) (c_so c k) (c_st c k) (ps k) l)
+  - destruct (step_file (c_so c k) (c_st c k) (ps k) l)
       as [ph|] eqn:Hsf; try discriminate.
     inversion Hs; subst ps'; clear Hs.
     rewrite (wcount_op_cls o k l i Hc). unfold pupd.
